@@ -56,6 +56,10 @@ pub fn step<T: Elem>(m: &mut Matrix<T>, op: &Value) -> StepOut<T> {
             "div_scalar" => o.rm = Some(if own { m.clone() / arg_x::<T>(op, "s") } else { &*m / arg_x::<T>(op, "s") }),
             "matmul" => { let b = arg_mat::<T>(op); o.rm = Some(if own { m.clone() * b } else { &*m * &b }) }
             "matvec" => { let v = arg_vec::<T>(op); o.rv = Some(match gets(op, "form") { "own" => m.clone() * v, "method" => m.multiply(&v), _ => &*m * &v }) }
+            // aliasing: the SAME object on both sides of a by-reference operator
+            "add_self" => o.rm = Some(&*m + &*m),
+            "sub_self" => o.rm = Some(&*m - &*m),
+            "matmul_self" => o.rm = Some(&*m * &*m),
             "eye" => o.rm = Some(Matrix::<T>::eye(getu(op, "n"))),
             "new" => o.rm = Some(Matrix::<T>::new(getu(op, "nr"), getu(op, "nc"), arg_x::<T>(op, "x"))),
             other => { eprintln!("TOOL-ERROR unknown dense op {}", other); std::process::exit(2) }
@@ -142,10 +146,10 @@ pub fn run<T: Elem>(case: &Value, out: &mut Out) {
         }
         let so = step(&mut m, op);
         let post_re = jmat(&m, Part::Re); let post_im = jmat(&m, Part::Im);
-        let bilinear = matches!(name, "matmul" | "matvec");
+        let bilinear = matches!(name, "matmul" | "matvec" | "matmul_self");
         if T::CX && bilinear {
             // one event carrying both parts: (A+iB)(C+iD)
-            let (c, d) = if name == "matmul" { (op["b"].clone(), op.get("bi").cloned().unwrap_or_else(|| json!({"r": op["b"]["r"], "c": op["b"]["c"], "d": vec![0i64; op["b"]["d"].as_array().unwrap().len()]}))) }
+            let (c, d) = if name == "matmul_self" { (pre_re.clone(), pre_im.clone()) } else if name == "matmul" { (op["b"].clone(), op.get("bi").cloned().unwrap_or_else(|| json!({"r": op["b"]["r"], "c": op["b"]["c"], "d": vec![0i64; op["b"]["d"].as_array().unwrap().len()]}))) }
                          else { (as_col(&op["v"]), as_col(&op.get("vi").cloned().unwrap_or_else(|| Value::from(vec![0i64; op["v"].as_array().unwrap().len()])))) };
             let mut e = json!({"op": "matmul_cx", "src": name, "ty": "cx", "cid": cid, "k": k, "a": pre_re, "b": pre_im, "c": c, "d": d, "panic": so.panic, "post": post_re});
             e["pre"] = pre_re.clone();
@@ -227,7 +231,7 @@ fn rand_op(rng: &mut StdRng, r: usize, c: usize, cx: bool, f64ty: bool, doubling
             38 | 39 => { let k = if bad && rng.gen_bool(0.1) { c + 1 } else { c };
                 o = json!({"op": "matvec", "form": (["own", "ref", "method"][rng.gen_range(0..3)]), "v": rand_vec_json(rng, k, -3, 3)});
                 if cx { o["vi"] = rand_vec_json(rng, k, -3, 3); } }
-            40 => { o = json!({"op": "eye", "n": rng.gen_range(0..=8)}); }
+            40 => { o = if rng.gen_bool(0.4) { json!({"op": "eye", "n": rng.gen_range(0..=8)}) } else { json!({"op": (["add_self", "sub_self", "matmul_self"][rng.gen_range(0..3)])}) }; }
             41 => { o = json!({"op": "new", "nr": rng.gen_range(0..=8), "nc": rng.gen_range(0..=8), "x": small(rng)}); if cx { o["xi"] = json!(small(rng)); } }
             42 => { if !f64ty { continue; } o = json!({"op": "norm_1"}); }
             43 => { if !f64ty { continue; } o = json!({"op": "norm_inf"}); }
